@@ -2,7 +2,7 @@
    arbitrary arithmetic instance (so they hold verbatim for binary64). *)
 From Coq Require Import ZArith QArith List Bool Sorted.
 From V Require Import Base.Num Model.StreamCore Model.Zliobaite Model.StreamCounters
-  Proofs.StreamGeneric Proofs.ZlProofs Proofs.CounterProofs.
+  Model.Biqf Proofs.StreamGeneric Proofs.StreamGenericX Proofs.ZlProofs Proofs.CounterProofs Proofs.BiqfProofs.
 Import ListNotations.
 Close Scope Q_scope.
 
@@ -53,6 +53,36 @@ Theorem C10_baselines_indices_wellformed :
 Proof. intros. apply (query_indices_wellformed (c_inst k p)). apply c_query_pure. Qed.
 Print Assumptions C10_baselines_indices_wellformed.
 
+(* BalancedIncrementalQuantileFilter, for every quantile oracle and every arithmetic: update fed
+   with query's result commits the per-instance simulation (counters and the bounded history), so
+   decisions and final state do not depend on the chunking; indices are strictly increasing and
+   in range.  b_wf = the history holds at most w entries (true initially and after every update). *)
+Theorem C10_biqf_update_commits_simulation :
+  forall (F : Type) (N : Num F) (quant : Z -> list F -> F) (p : bparams) (s : bstate) (xs : list F),
+  b_wf p s -> b_update p s xs (fst (b_query quant p s xs)) = snd (giter (b_inst quant p) s xs).
+Proof. intros. apply b_update_sim. assumption. Qed.
+Print Assumptions C10_biqf_update_commits_simulation.
+
+Theorem C10_biqf_chunking_invariance :
+  forall (F : Type) (N : Num F) (quant : Z -> list F -> F) (p : bparams) (chunks : list (list F)) (s : bstate),
+  b_wf p s ->
+  xprocess (b_query quant p) (b_update p) s chunks = giter (b_inst quant p) s (concat chunks).
+Proof.
+  intros F N quant p chunks s Hs.
+  apply (x_chunking_invariance (b_inst quant p) (b_query quant p) (b_update p) (b_query_pure quant p) (b_wf p)).
+  - intros s0 xs H0. apply b_update_sim. exact H0.
+  - intros s0 xs idx. apply b_update_wf.
+  - exact Hs.
+Qed.
+Print Assumptions C10_biqf_chunking_invariance.
+
+Theorem C10_biqf_indices_wellformed :
+  forall (F : Type) (N : Num F) (quant : Z -> list F -> F) (p : bparams) (s : bstate) (xs : list F),
+  StronglySorted lt (fst (b_query quant p s xs)) /\
+  forall j, In j (fst (b_query quant p s xs)) -> j < length xs.
+Proof. intros. apply (x_query_indices_wellformed (b_inst quant p)). apply b_query_pure. Qed.
+Print Assumptions C10_biqf_indices_wellformed.
+
 (* non-vacuity: two chunkings of a 4-instance stream under the variable-uncertainty manager *)
 Example C10_nonvacuous :
   let p := {| zp_w := 3; zp_b := (1 # 2)%Q; zp_s := (1 # 10)%Q; zp_v := (1 # 10)%Q; zp_K := 2; zp_draws := [] |} in
@@ -63,3 +93,16 @@ Example C10_nonvacuous :
   = fst (process (zquery ZVariable p) (zupdate ZVariable p) s [xs]) /\
   fst (giter (inst ZVariable p) s xs) = [true; true; false; true].
 Proof. vm_compute. split; reflexivity. Qed.
+
+(* non-vacuity for the quantile filter: w = 2, the oracle returns the window maximum; two chunkings
+   of a 4-instance stream decide alike and the history ends as the last two utilities *)
+Example C10_biqf_nonvacuous :
+  let p := {| bq_b := (1 # 2)%Q; bq_w := 2; bq_wtol := 1%Q |} in
+  let s := {| b_obs := 0; b_que := 0; b_hist := [] |} in
+  let quant := fun (_ : Z) (h : list Q) => fmax_list h in
+  let xs := [(3 # 10)%Q; (9 # 10)%Q; (1 # 10)%Q; (5 # 10)%Q] in
+  xprocess (b_query quant p) (b_update p) s [[(3 # 10)%Q; (9 # 10)%Q]; [(1 # 10)%Q; (5 # 10)%Q]] =
+  xprocess (b_query quant p) (b_update p) s [xs] /\
+  fst (giter (b_inst quant p) s xs) = [true; true; false; true] /\
+  b_hist (snd (giter (b_inst quant p) s xs)) = [(1 # 10)%Q; (5 # 10)%Q] /\ b_wf p s.
+Proof. vm_compute. repeat split; try reflexivity. auto with arith. Qed.
